@@ -4,6 +4,7 @@ package main
 // SMT-LIB emission and the solver portfolio.
 
 import (
+	"encoding/hex"
 	"crypto/sha1"
 	"runtime/debug"
 	"bytes"
@@ -163,6 +164,9 @@ type Obligation struct {
 	Extra *Term
 	relaxSat bool
 	timedOut bool
+	noSlice   bool
+	coverBefore int // >0: the cover fails only if the path was satisfiable with the first coverBefore items
+	ExpectSat bool // cover obligation: discharged when the path facts are satisfiable (or undecided), failed when unsat
 	relaxOut string
 }
 
@@ -177,6 +181,8 @@ type VC struct {
 	specs   *SpecLib
 	frozen  int // >0 while evaluating under a binder: no naming, no assumptions
 	rootExec *Exec
+	defs     map[string]*Term // named definitions: symbol -> defining term
+	defByExpr map[string]*Term // hash-consing of definitions
 }
 
 func NewVC(fn string, specs *SpecLib) *VC {
@@ -213,8 +219,18 @@ func (vc *VC) Define(hint string, t *Term) *Term {
 	if len(t.String()) < 24 {
 		return t
 	}
+	if vc.defByExpr == nil {
+		vc.defByExpr = map[string]*Term{}
+		vc.defs = map[string]*Term{}
+	}
+	key := t.Sort + "|" + t.String()
+	if prev, ok := vc.defByExpr[key]; ok {
+		return prev
+	}
 	s := vc.Fresh(hint, t.Sort)
 	vc.items = append(vc.items, Item{Assert: App("=", SBool, s, t), Def: s.Name})
+	vc.defByExpr[key] = s
+	vc.defs[s.Name] = t
 	return s
 }
 
@@ -299,6 +315,11 @@ func (o *Obligation) SMT(withModel bool) string {
 		t.symbols(seeds)
 	}
 	keep := sliceItems(items, seeds)
+	if o.noSlice {
+		for i := range keep {
+			keep[i] = true
+		}
+	}
 	for i, it := range items {
 		if !keep[i] {
 			continue
@@ -310,6 +331,57 @@ func (o *Obligation) SMT(withModel bool) string {
 			body.WriteString("(assert " + it.Assert.String() + ")\n")
 		default:
 			body.WriteString("(declare-const " + it.Name + " " + it.Sort + ")\n")
+		}
+	}
+	// extensionality instances for byte sequences: two BSeq terms are equal, or differ in length, or differ
+	// at a witness position (valid under the extensional reading of BSeq; lets the solver connect memory
+	// contents built by copy/append with the RFC compositions inside uninterpreted primitives)
+	if vc.rootExec != nil && vc.rootExec.con != nil && vc.rootExec.con.Raw["seq_extensionality"] != nil {
+		seen := map[string]*Term{}
+		var order []string
+		var walk func(t *Term)
+		walk = func(t *Term) {
+			if t == nil || t.Op == "forall" || t.Op == "exists" {
+				return
+			}
+			if t.Sort == "BSeq" {
+				k := t.String()
+				if _, ok := seen[k]; !ok {
+					seen[k] = t
+					order = append(order, k)
+				}
+			}
+			for _, a := range t.Args {
+				walk(a)
+			}
+		}
+		for i, it := range items {
+			if keep[i] && it.Assert != nil {
+				walk(it.Assert)
+			}
+		}
+		walk(o.Goal)
+		walk(o.Guard)
+		interesting := func(t *Term) bool {
+			switch t.Op {
+			case "bseq.of", "seqcat", "seqtrunc", "seqsub", "seqzeros", "seqbyte", "seqbe32", "seqle32":
+				return true
+			}
+			return false
+		}
+		n := 0
+		for i := 0; i < len(order) && n < 400; i++ {
+			for j := i + 1; j < len(order) && n < 400; j++ {
+				a, b := seen[order[i]], seen[order[j]]
+				if !interesting(a) && !interesting(b) {
+					continue
+				}
+				d := fmt.Sprintf("seqdiff!%d", n)
+				n++
+				body.WriteString("(declare-const " + d + " (_ BitVec 64))\n")
+				body.WriteString(fmt.Sprintf("(assert (or (= %s %s) (not (= (bseq.len %s) (bseq.len %s))) (and (bvsle #x0000000000000000 %s) (bvslt %s (bseq.len %s)) (not (= (bseq.at %s %s) (bseq.at %s %s))))))\n",
+					a, b, a, b, d, d, a, a, d, b, d))
+			}
 		}
 	}
 	body.WriteString("; ---- obligation " + o.Name + "\n; " + strings.ReplaceAll(o.Desc, "\n", " ") + "\n")
@@ -372,6 +444,31 @@ func (o *Obligation) SMT(withModel bool) string {
 	}
 	for _, d := range invDefs(ss) {
 		sb.WriteString(d + "\n")
+	}
+	// sequence constants for literals: seqlit.<hex of the bytes>, declared right after bseq.at
+	var litDecl strings.Builder
+	litSeen := map[string]bool{}
+	for _, tk := range append(toks, tokenize(specText)...) {
+		if strings.HasPrefix(tk, "seqlit.") && !litSeen[tk] {
+			litSeen[tk] = true
+			bs, err := hex.DecodeString(tk[len("seqlit."):])
+			if err != nil {
+				continue
+			}
+			litDecl.WriteString("(declare-const " + tk + " BSeq)\n")
+			litDecl.WriteString(fmt.Sprintf("(assert (= (bseq.len %s) #x%016x))\n", tk, len(bs)))
+			for i, b := range bs {
+				litDecl.WriteString(fmt.Sprintf("(assert (= (bseq.at %s #x%016x) #x%02x))\n", tk, i, b))
+			}
+		}
+	}
+	if litDecl.Len() > 0 {
+		marker := "(declare-fun bseq.at (BSeq (_ BitVec 64)) (_ BitVec 8))\n"
+		if i := strings.Index(specText, marker); i >= 0 {
+			specText = specText[:i+len(marker)] + litDecl.String() + specText[i+len(marker):]
+		} else {
+			specText += litDecl.String()
+		}
 	}
 	sb.WriteString(specText)
 	sb.WriteString(text)
@@ -470,6 +567,10 @@ func (o *Obligation) Solve(timeoutS int, keep bool) {
 			o.Status, o.Raw = "error", fmt.Sprintf("engine error while emitting: %v\n%s", r, debug.Stack())
 		}
 	}()
+	if o.ExpectSat {
+		o.solveCover(keep)
+		return
+	}
 	text := o.SMT(true)
 	o.Quant = strings.Contains(text, "(forall ") || strings.Contains(text, "(exists ")
 	fn := fileSafe.ReplaceAllString(o.Name, "_")
@@ -503,8 +604,14 @@ func (o *Obligation) Solve(timeoutS int, keep bool) {
 	o.timedOut = false
 	if o.Quant && !strings.Contains(o.Goal.String(), "(forall") && !strings.Contains(o.Goal.String(), "(exists") {
 		var rb strings.Builder
+		skip := 0
 		for _, line := range strings.Split(text, "\n") {
+			if skip > 0 {
+				skip += strings.Count(line, "(") - strings.Count(line, ")")
+				continue
+			}
 			if strings.HasPrefix(line, "(assert ") && (strings.Contains(line, "(forall ") || strings.Contains(line, "(exists ")) {
+				skip = strings.Count(line, "(") - strings.Count(line, ")")
 				continue
 			}
 			rb.WriteString(line + "\n")
@@ -665,4 +772,76 @@ func SolveAll(obls []*Obligation, timeoutS int, workers int, keep bool) {
 	}
 	close(ch)
 	wg.Wait()
+}
+
+// solveCover: the guard must be satisfiable together with all assumptions made before this point.
+func (o *Obligation) solveCover(keep bool) {
+	t0 := time.Now()
+	// all items (no slicing: an inconsistency anywhere matters)
+	saveGoal := o.Goal
+	o.Goal = False
+	o.noSlice = true
+	text := o.SMT(false)
+	o.noSlice = false
+	o.Goal = saveGoal
+	hsum := sha1.Sum([]byte(o.Name))
+	file := filepath.Join(ensureWorkDir(), fmt.Sprintf("cover_%s.%x.smt2", fileSafe.ReplaceAllString(trunc(o.Name, 100), "_"), hsum[:4]))
+	os.WriteFile(file, []byte(text), 0644)
+	// quantifier-free relaxation (answers at once; contradictions hidden behind quantified facts are left to
+	// the thorough tier)
+	if os.Getenv("VERIF_TIER") != "thorough" {
+		text = relaxQuantifiers(text)
+		os.WriteFile(file, []byte(text), 0644)
+	}
+	r := runSolver(context.Background(), solvers[1], file, 4)
+	o.Secs = time.Since(t0).Seconds()
+	o.Quant = strings.Contains(text, "(forall ")
+	if r.verdict == "unsat" && o.coverBefore > 0 {
+		// was the call reachable at all? (dead code after a contradiction-free prefix is not vacuity)
+		savePos := o.itemPos
+		o.itemPos = o.coverBefore
+		o.Goal = False
+		o.noSlice = true
+		t2 := relaxQuantifiers(o.SMT(false))
+		o.noSlice = false
+		o.Goal = saveGoal
+		o.itemPos = savePos
+		f2 := strings.TrimSuffix(file, ".smt2") + ".before.smt2"
+		os.WriteFile(f2, []byte(t2), 0644)
+		r2 := runSolver(context.Background(), solvers[1], f2, 4)
+		os.Remove(f2)
+		if r2.verdict == "unsat" {
+			// unreachable already before the call: dead code, not a contradiction introduced here
+			os.Remove(file)
+			o.Status, o.Solver = "discharged", r.solver+"(cover:dead-code)"
+			return
+		}
+	}
+	if r.verdict == "unsat" {
+		o.Status, o.Solver, o.Raw = "failed", r.solver, "the assumptions on this path are contradictory: everything after them would be vacuously true"
+		o.SMTFile = file
+		return
+	}
+	if !keep {
+		os.Remove(file)
+	}
+	o.Status, o.Solver = "discharged", r.solver+"(cover:"+r.verdict+")"
+}
+
+// relaxQuantifiers drops quantified assertions (multi-line aware).
+func relaxQuantifiers(text string) string {
+	var rb strings.Builder
+	skip := 0
+	for _, line := range strings.Split(text, "\n") {
+		if skip > 0 {
+			skip += strings.Count(line, "(") - strings.Count(line, ")")
+			continue
+		}
+		if strings.HasPrefix(line, "(assert ") && (strings.Contains(line, "(forall ") || strings.Contains(line, "(exists ")) {
+			skip = strings.Count(line, "(") - strings.Count(line, ")")
+			continue
+		}
+		rb.WriteString(line + "\n")
+	}
+	return rb.String()
 }
